@@ -207,3 +207,10 @@ package wamp
 //@   props C04
 //@   requires is(msg, *Goodbye) ==> msg.(*Goodbye) != nil
 //@   pure
+
+// DictChild returns the dictionary stored under key when there is one.
+//@ func DictChild
+//@   props C12
+//@   modifies fresh map[string]any
+//@   ensures [the-child-when-it-is-a-dict] key in dict && is(dict[key], Dict) && dict[key].(Dict) != nil ==> result == dict[key].(Dict)
+//@   ensures [nil-means-no-dict-child] result == nil ==> !(key in dict && is(dict[key], Dict) && dict[key].(Dict) != nil)
